@@ -100,11 +100,16 @@ def gen_manager(rng, tier):
     if rng.random() < 0.4:
         target = names[rng.choice(with_end)]
         without_end = [names[s] for s in present if s not in with_end]
-        kinds = ["unknown_restr", "unknown_deform", "unknown_ignore", "tuple_len", "index_range_start", "index_range_end",
+        kinds = ["unknown_restr", "unknown_deform", "unknown_ignore", "fragment_restr", "fragment_deform", "fragment_ignore", "tuple_len", "index_range_start", "index_range_end",
                  "deform_not_sequence", "deform_too_long", "ignore_not_bool"]
         if without_end:
             kinds.append("species_without_end")
-        bad = {"kind": rng.choice(kinds), "target": target, "other": without_end[0] if without_end else None}
+        # an unknown name that is a FRAGMENT of the known ones (prefix, suffix, separator, empty): only exact names count
+        frags = [target[:-1], target[1:], target[:1], "", ", ", target + ", ", target.lower()]
+        known = set(names.values())
+        frags = [f for f in frags if f not in known]
+        bad = {"kind": rng.choice(kinds), "target": target, "other": without_end[0] if without_end else None,
+               "fragment": rng.choice(frags)}
     return {"mode": "manager", "species": species, "text": text, "present": present, "with_end": with_end, "ends": ends,
             "restr": restr, "deform": deform, "ignore": ignore, "use": use, "bad": bad,
             "parse_restrictions": rng.random() < 0.7,
@@ -154,7 +159,7 @@ def exec_align(trace, ctx):
     calls = []
 
     def stub(mol1_positions, mol2_positions, mol2_com, sigma_scale, n_steps, restriction, mol2_bonds_info,
-             displacement_module, sim_type):
+             displacement_module, sim_type, *extra, **kw):
         calls.append({"mol1": np.array(mol1_positions, dtype=float, copy=True), "mol2": np.array(mol2_positions, dtype=float, copy=True),
                       "restriction": [tuple(int(x) for x in r) for r in restriction], "sim_type": tuple(sim_type),
                       "n_steps": n_steps, "bonds": mol2_bonds_info})
@@ -377,6 +382,17 @@ def exec_manager(trace, ctx):
         elif k == "unknown_ignore":
             ignore = dict(ignore or {})
             ignore["NOPE"] = True
+        elif k in ("fragment_restr", "fragment_deform", "fragment_ignore"):
+            frag = bad.get("fragment", "NOPE")
+            if k == "fragment_restr":
+                restr = dict(restr or {})
+                restr[frag] = [(0, 0)]
+            elif k == "fragment_deform":
+                deform = dict(deform or {})
+                deform[frag] = (0,)
+            else:
+                ignore = dict(ignore or {})
+                ignore[frag] = True
         elif k == "species_without_end":
             which = ctx.trace["bad"]["other"]
             ignore = dict(ignore or {})
@@ -440,7 +456,7 @@ def exec_manager(trace, ctx):
         return
     if bad and not pr:
         # restrictions are declared as already parsed: only their validation is skipped
-        if bad["kind"] in ("unknown_restr", "tuple_len", "index_range_start", "index_range_end"):
+        if bad["kind"] in ("unknown_restr", "fragment_restr", "tuple_len", "index_range_start", "index_range_end"):
             ctx.op("manager", "unparsed-bad")
             return
         if raised is None:
